@@ -20,8 +20,10 @@ class LoopSpec:
     shapes        -> {name: callable() -> fresh value} for havocked variables whose shape cannot be inferred
     """
     def __init__(self, defs=None, inv=None, modifies=(), variant=None, shapes=None, unroll=False, cases=None,
-                 lemmas=None):
+                 lemmas=None, ghost=None, ghost_step=None):
         self.defs, self.inv, self.modifies, self.variant = defs, inv, tuple(modifies), variant
+        self.ghost = ghost or {}        # ghost variables: name -> initial value (set just before the loop)
+        self.ghost_step = ghost_step    # (ctx) -> {name: new value}, applied at the end of every iteration
         self.lemmas = lemmas            # (ctx) -> [(name, fact)]: proved, then assumed, at the start of the body
         self.cases = cases or {}        # proof hints: name -> (ctx, k) -> (i -> (index terms, rest condition))
         self.shapes = shapes or {}
@@ -210,9 +212,11 @@ def _clauses(r):
 
 def cut_loop(ex, s, st, spec, ordn, n, item, is_while=False):
     tag = 'loop%d' % ordn
+    for gname, gval in spec.ghost.items():
+        st.locals[gname] = gval(Ctx(ex, st)) if callable(gval) else gval
     entry = st.copy()
     watermark = _cell[0]
-    body_names = assigned_names(s.body)
+    body_names = assigned_names(s.body) | set(spec.ghost)
     if not is_while:
         body_names |= assigned_names([ast.Expr(value=s.target)]) | {x.id for x in ast.walk(s.target) if isinstance(x, ast.Name)}
     mod_refs = [Ctx(ex, entry).path(p) for p in spec.modifies]
@@ -297,9 +301,15 @@ def cut_loop(ex, s, st, spec, ordn, n, item, is_while=False):
     h.assume(AND(k >= 0, k < n))
     if feasible(h.pc):
         ex.assign(s.target, ex.with_sink(h, s, lambda: item(k)), h, s)
+        if spec.lemmas is not None:
+            for nm, fact in spec.lemmas(Ctx(ex, h, entry), k) if spec.lemmas.__code__.co_argcount == 2 else spec.lemmas(Ctx(ex, h, entry)):
+                ex.oblige(h, fact, '%s/lemma.%s' % (tag, nm), s)
+                h.assume(fact)
         for o in ex.block(s.body, h):
             enforce_frame(o.st)
             if o.kind in ('normal', 'continue'):
+                if spec.ghost_step:
+                    o.st.locals.update(spec.ghost_step(Ctx(ex, o.st, entry)))
                 check(o.st, k + 1, 'inv-preserved')
             elif o.kind == 'break':
                 o.st.written |= entry.written
@@ -333,6 +343,8 @@ def cut_while(ex, s, st, spec, tag, head, check, enforce_frame, entry):
         for o in ex.block(s.body, hb):
             enforce_frame(o.st)
             if o.kind in ('normal', 'continue'):
+                if spec.ghost_step:
+                    o.st.locals.update(spec.ghost_step(Ctx(ex, o.st, entry)))
                 check(o.st, None, 'inv-preserved')
                 if v0 is not None:
                     v1 = spec.variant(Ctx(ex, o.st, entry))
